@@ -74,10 +74,11 @@ type dialCase struct {
 	Tasks    string
 	CancelAt time.Duration // 0 = never
 	Mode     DialerMode
-	Auto0    bool   // initial autoconf value
-	GetF     string // per successful-socket dial: fault of the autoconf get  (n p e x), indexed by socket number
-	SetF     string // fault of the disable write
-	RestF    string // fault of the restore write
+	Auto0    bool          // initial autoconf value
+	GetF     string        // per successful-socket dial: fault of the autoconf get  (n p e x), indexed by socket number
+	SetF     string        // fault of the disable write
+	RestF    string        // fault of the restore write
+	DialLat  time.Duration // every dial attempt takes this long (virtual)
 }
 
 const vTaskLen = time.Second
@@ -121,11 +122,12 @@ func vSimulate(c *dialCase) dialExpect {
 	var e dialExpect
 	t := time.Duration(0)
 	di, ti, sock := 0, 0, 0
-	cancelled := func(until time.Duration) bool { return c.CancelAt > 0 && c.CancelAt <= until }
-	// dial performs one attempt at time t and returns its outcome letter after
-	// applying the sysctl plan ('o' ok or an error class letter).
+	isCancelled := func() bool { return c.CancelAt > 0 && c.CancelAt <= t }
+	// dial performs one attempt starting at time t (it takes DialLat) and returns
+	// its outcome letter after applying the sysctl plan.
 	dial := func() byte {
 		e.dialTimes = append(e.dialTimes, t)
+		t += c.DialLat
 		o := at(c.Dials, di)
 		di++
 		if o == 0 {
@@ -134,12 +136,11 @@ func vSimulate(c *dialCase) dialExpect {
 		if o != 'o' {
 			return o
 		}
-		// socket opened; autoconf handling (Advertise mode only)
 		k := sock
 		sock++
 		if c.Mode == Advertise {
 			if g := at(c.GetF, k); g != 0 && g != 'n' {
-				return 'x' // failing to read the state fails the dial with a plain error
+				return 'x'
 			}
 			if s := at(c.SetF, k); s != 0 && s != 'n' && s != 'p' {
 				return 'x'
@@ -162,14 +163,21 @@ func vSimulate(c *dialCase) dialExpect {
 		} else {
 			ok := false
 			for i := 0; i < 50; i++ {
-				if cancelled(t + vDelay(i)) {
+				d := vDelay(i)
+				switch {
+				case isCancelled() && d == 0:
+					// the retry loop's select sees both a done context and an expired
+					// timer: either branch may be taken
+					e.dontcare = "cancellation raced a zero back-off delay"
+					return e
+				case isCancelled():
+					e.endT, e.endNil = t, true
+					return e
+				case c.CancelAt > 0 && c.CancelAt <= t+d:
 					e.endT, e.endNil = c.CancelAt, true
-					if c.CancelAt < t {
-						e.endT = t
-					}
 					return e
 				}
-				t += vDelay(i)
+				t += d
 				o := dial()
 				if o == 'o' {
 					ok = true
@@ -192,15 +200,18 @@ func vSimulate(c *dialCase) dialExpect {
 		if o == 0 {
 			o = 'N'
 		}
+		if isCancelled() {
+			// the connection was established while the cancelation was already
+			// pending: the task sees it at once; the connection is still cleaned up
+			e.endT, e.endNil = t, !restoreFails
+			return e
+		}
 		end := t + vTaskLen
 		if o == 'C' {
 			end = vNever
 		}
-		if cancelled(end) {
-			// the task observes the cancelation and returns cleanly
-			if c.CancelAt > t {
-				t = c.CancelAt
-			}
+		if c.CancelAt > 0 && c.CancelAt <= end {
+			t = c.CancelAt
 			e.endT, e.endNil = t, !restoreFails
 			return e
 		}
@@ -275,13 +286,17 @@ func vRunDial(t *testing.T, r0 *vlib.Run, c *dialCase) {
 				return vFaultErr(at(c.RestF, curSock))
 			}
 			d.DialFunc = func() (*DialContext, error) {
+				dialStart := tr.Now()
+				if c.DialLat > 0 {
+					time.Sleep(c.DialLat)
+				}
 				o := at(c.Dials, di)
 				di++
 				if o == 0 {
 					o = 'o'
 				}
 				if o != 'o' {
-					tr.Add(vfake.Event{Kind: "dial", ID: di - 1, Err: string(o)})
+					tr.Add(vfake.Event{Kind: "dial", ID: di - 1, Err: string(o), Val: int64(dialStart)})
 					return nil, vDialErr(o)
 				}
 				k := sock
@@ -294,11 +309,11 @@ func vRunDial(t *testing.T, r0 *vlib.Run, c *dialCase) {
 					restore, err = d.setAutoconf()
 					if err != nil {
 						tr.Add(vfake.Event{Kind: "close", Gen: k + 1, Msg: "dial failed"})
-						tr.Add(vfake.Event{Kind: "dial", ID: di - 1, Err: "x:" + err.Error()})
+						tr.Add(vfake.Event{Kind: "dial", ID: di - 1, Err: "x:" + err.Error(), Val: int64(dialStart)})
 						return nil, err
 					}
 				}
-				tr.Add(vfake.Event{Kind: "dial", ID: di - 1, Gen: k + 1})
+				tr.Add(vfake.Event{Kind: "dial", ID: di - 1, Gen: k + 1, Val: int64(dialStart)})
 				return &DialContext{done: func() error {
 					curSock = k
 					tr.Add(vfake.Event{Kind: "close", Gen: k + 1})
@@ -472,7 +487,7 @@ func vRunDial(t *testing.T, r0 *vlib.Run, c *dialCase) {
 	for _, e := range ev {
 		switch e.Kind {
 		case "dial":
-			gotDials = append(gotDials, e.T)
+			gotDials = append(gotDials, time.Duration(e.Val))
 		case "dial_return":
 			endT = e.T
 		}
@@ -586,6 +601,16 @@ func TestVerifDial(t *testing.T) {
 			}
 			c := &dialCase{ID: fmt.Sprintf("limit/%s/%d", first, n), Dials: d + strings.Repeat("l", n), Tasks: tk, Mode: Advertise, Auto0: true}
 			run(c)
+		}
+	}
+	// slow dials: the cancelation lands while a (re-)dial is in flight
+	for _, sc := range [][2]string{{"o", "L"}, {"o", "S"}, {"lo", "N"}, {"o", "LL"}, {"olo", "L"}, {"oo", "LN"}} {
+		for ms := 50; ms <= 3600; ms += 50 {
+			for _, mode := range []DialerMode{Advertise, Monitor} {
+				c := &dialCase{ID: fmt.Sprintf("slowdial/%s/%s/%d/m%d", sc[0], sc[1], ms, mode), Dials: sc[0], Tasks: sc[1], CancelAt: time.Duration(ms)*time.Millisecond + time.Microsecond,
+					Mode: mode, Auto0: ms%100 == 0, DialLat: 300 * time.Millisecond}
+				run(c)
+			}
 		}
 	}
 	// sysctl fault plans (C11): get/set/restore × {n p e x} on the first and second socket
